@@ -65,7 +65,10 @@ def parse_trace(path):
             elif t[0] == "setup":
                 d["err"] = ("setup", t[2])
             elif t[1] == "tape":
-                d["tapes"][int(t[0][1:])] = rest.split(" ")[2:]
+                evs = rest.split(" ")[2:]
+                # tag@stream:payload -> keep the stream names separately
+                d["tapes"][int(t[0][1:])] = [re.sub(r"^([a-z_]+)@[a-z_]+", r"\1", e) for e in evs]
+                d.setdefault("streams", {})[int(t[0][1:])] = [(e.split(":", 1)[0].split("@") + ["?"])[:2] for e in evs]
             elif t[1] == "err":
                 d["err"] = (int(t[0][1:]), t[2])
             else:
